@@ -76,7 +76,7 @@ def run(ctx):
                "write/DDL clause (CREATE, MERGE, SET property/label, REMOVE, DELETE, DETACH DELETE, FOREACH, CREATE/DROP INDEX, CREATE CONSTRAINT, "
                "CREATE VECTOR INDEX, CREATE/DROP HIERARCHY INDEX) + closing RETURN?, keyword case upper/lower, separator blank/tab/newline; plus "
                "closing RETURNs whose string literals / UNION branch contain write keywords" % (1 if q else 2),
-               "every statement runs on its own fresh copy of a fixed graph (2 Person, 1 City, 1 KNOWS, property index, unique constraint, "
+               "every statement runs on its own fresh copy of a fixed graph (2 unconnected Person, 2 City joined by 1 KNOWS, property index, unique constraint, "
                "hierarchy index) on each of the three routes; the graph effect is the full dump (nodes with labels and merged properties, "
                "relationships, SHOW INDEXES / CONSTRAINTS / HIERARCHY INDEXES, vector index list)",
                "the reference is the engine's own choice: QueryEngine::execute_mut iff the planner marks the parsed statement's plan is_write "
